@@ -22,6 +22,7 @@ import (
 	"crypto/sha256"
 	"fmt"
 	"os"
+	"reflect"
 	"sort"
 	"strconv"
 	"strings"
@@ -40,6 +41,9 @@ import (
 var armed sync.Map // int64 (UnixNano of the scheduled time) -> chan struct{}
 var armSeq atomic.Int64
 
+// worlds: address of the executor's queue -> *world (the poll hook reports polls per queue)
+var worlds sync.Map
+
 // addArmed: UnixNano of the scheduled time -> *addGate (Queue.Add parks between its shutdown check and the insertion)
 var addArmed sync.Map
 
@@ -48,8 +52,36 @@ type addGate struct {
 	release chan struct{}
 }
 
+// qEvent: a poll or an insertion of one queue, recorded while the queue's heap lock is held, so that the order of the
+// records is the order of the critical sections
+type qEvent struct {
+	pop bool
+	due time.Time
+	at  time.Time
+}
+
+func worldOf(q any) *world {
+	if v, ok := worlds.Load(reflect.ValueOf(q).Pointer()); ok {
+		return v.(*world)
+	}
+
+	return nil
+}
+
 func init() {
-	timed.VerifAddHook = func(t time.Time) {
+	timed.VerifPopHook = func(q any, t time.Time) {
+		if w := worldOf(q); w != nil {
+			w.popMu.Lock()
+			w.qev = append(w.qev, qEvent{pop: true, due: t, at: time.Now()})
+			w.popMu.Unlock()
+		}
+	}
+	timed.VerifAddHook = func(q any, t time.Time) {
+		if w := worldOf(q); w != nil {
+			w.popMu.Lock()
+			w.qev = append(w.qev, qEvent{pop: false, due: t, at: time.Now()})
+			w.popMu.Unlock()
+		}
 		if v, ok := addArmed.Load(t.UnixNano()); ok {
 			g := v.(*addGate)
 			close(g.entered)
@@ -59,7 +91,7 @@ func init() {
 			}
 		}
 	}
-	timed.VerifPollHook = func(t time.Time) {
+	timed.VerifPollHook = func(_ any, t time.Time) {
 		if v, ok := armed.Load(t.UnixNano()); ok {
 			select {
 			case <-v.(chan struct{}):
@@ -118,6 +150,7 @@ type task struct {
 type finding struct {
 	oracle, detail string
 	sig            map[string]string
+	robust         bool // holds whatever the timing of the harness was (kept also from a timing-invalid attempt)
 }
 
 type sdCall struct {
@@ -149,10 +182,15 @@ type world struct {
 	maxLate  time.Duration
 	timeout  atomic.Bool
 	slowCall atomic.Bool
+	regMu    sync.Mutex // serialises the TaskExecutor calls of the harness together with their bookkeeping
+	popMu    sync.Mutex
+	qev      []qEvent // polls and insertions of this world's queue in the order of their critical sections
+	glitch   bool     // a callback started long after its element was both polled and due
+	qptr     uintptr
 }
 
 func (w *world) fail(oracle, detail string, sig map[string]string) {
-	w.finds = append(w.finds, finding{oracle, detail, sig})
+	w.finds = append(w.finds, finding{oracle, detail, sig, oracle == "never-early" || oracle == "at-most-once"})
 }
 
 func (w *world) at(clock int) time.Time { return w.base.Add(time.Duration(clock) * w.unit) }
@@ -259,6 +297,10 @@ func (w *world) callback(t *task) func() {
 
 // execTracked calls TaskExecutor.ExecuteAt and keeps the oracle's books.
 func (w *world) execTracked(t *task) string {
+	// a task that is due already starts while this goroutine is still doing its bookkeeping; its callback's own
+	// ExecuteAt / Cancel calls must see (and be seen by) the books in the order of the real calls
+	w.regMu.Lock()
+	defer w.regMu.Unlock()
 	w.mu.Lock()
 	if old := w.pendingOf(t.id); old != nil {
 		old.replaced = true
@@ -268,12 +310,29 @@ func (w *world) execTracked(t *task) string {
 	w.mu.Unlock()
 	var h *timed.ScheduledTask
 	cb := w.callback(t)
-	t0 := time.Now()
+	w.popMu.Lock()
+	n0 := len(w.qev)
+	w.popMu.Unlock()
 	p := hx.Safely(func() { h = w.te.ExecuteAt(t.id, cb, t.due) })
-	if replacing && time.Since(t0) > 300*time.Microsecond {
-		// ExecuteAt cancels the old element and adds the new one in two critical sections; if this goroutine was
-		// preempted in between, a poller released by the cancellation may have polled first: timing-invalid
-		w.slowCall.Store(true)
+	if replacing {
+		// ExecuteAt cancels the old element and adds the new one in two critical sections.  A poller that held the
+		// old element is released by the cancellation; normally it polls after the new element is in (this goroutine
+		// is running, the poller has to be woken up first).  If a poll got in between (the hooks record polls and
+		// insertions under the heap lock, i.e. in their true order) the run is not the sequential history the op
+		// lines describe -> timing-invalid, re-run.
+		w.popMu.Lock()
+		polls := 0
+		for _, e := range w.qev[n0:] {
+			if !e.pop {
+				if polls > 0 {
+					w.slowCall.Store(true)
+				}
+
+				break
+			}
+			polls++
+		}
+		w.popMu.Unlock()
 	}
 	w.mu.Lock()
 	defer w.mu.Unlock()
@@ -297,6 +356,8 @@ func (w *world) execTracked(t *task) string {
 }
 
 func (w *world) cancelID(id int, fromCallback bool) string {
+	w.regMu.Lock()
+	defer w.regMu.Unlock()
 	w.mu.Lock()
 	exp := w.pendingOf(id)
 	reg := w.idReg[id]
@@ -504,6 +565,7 @@ type caseResult struct {
 	unit    time.Duration
 	tries   int
 	hist    map[string]int
+	robust  []finding // timing-independent findings of a case that stayed timing-invalid
 }
 
 // runOnce executes the op lines with the given unit; valid=false if the timing of the harness itself was off.
@@ -530,6 +592,7 @@ func runOnce(lines []string, unit time.Duration) (res caseResult) {
 		close(stop)
 		// let everything go and stop the workers
 		if w.te != nil {
+			worlds.Delete(w.qptr)
 			w.mu.Lock()
 			for _, t := range w.tasks {
 				c := w.relCh(t.tag)
@@ -562,6 +625,8 @@ func runOnce(lines []string, unit time.Duration) (res caseResult) {
 			w.w, _ = strconv.Atoi(f[1])
 			w.m, _ = strconv.Atoi(f[2])
 			w.te = timed.NewTaskExecutor[int](w.w, timed.WithMaxQueueSize(w.m))
+			w.qptr = reflect.ValueOf(w.te.Executor).Elem().FieldByName("queue").Pointer()
+			worlds.Store(w.qptr, w)
 			time.Sleep(unit) // workers park
 			w.base = time.Now().Add(unit)
 			go canary()
@@ -600,7 +665,7 @@ func runOnce(lines []string, unit time.Duration) (res caseResult) {
 		res.answers = append(res.answers, ans)
 	}
 	res.finds = w.finds
-	res.valid = time.Duration(maxOver.Load()) <= unit/4 && w.maxLate <= unit/4 && !w.timeout.Load() && !w.slowCall.Load()
+	res.valid = time.Duration(maxOver.Load()) <= unit/4 && w.maxLate <= unit/4 && !w.timeout.Load() && !w.slowCall.Load() && !w.glitch
 
 	return res
 }
@@ -636,6 +701,34 @@ func (w *world) finish(T int) string {
 		rs = append(rs, rr{w.idx(t.runs[seen[t.tag]]), t.tag})
 		seen[t.tag]++
 		ord = append(ord, strconv.Itoa(t.tag))
+	}
+	// timing validity, independent of the answers: in a run that is the sequential history of the op lines everything
+	// happens right after an integer clock instant - operations and what they trigger at even ones, timers and what
+	// they trigger at odd ones.  A poll, an insertion, the start of a callback or the return of a Shutdown more than a
+	// quarter unit off the grid means that the machine (timers, goroutine wake-ups) was late: re-run.
+	offGrid := func(t time.Time) bool {
+		d := t.Sub(w.base)
+
+		return d > 0 && d%w.unit > w.unit/4
+	}
+	w.popMu.Lock()
+	for _, e := range w.qev {
+		if offGrid(e.at) {
+			w.glitch = true
+		}
+	}
+	w.popMu.Unlock()
+	for _, t := range runs {
+		for _, at := range t.runs {
+			if offGrid(at) {
+				w.glitch = true
+			}
+		}
+	}
+	for _, c := range w.sd {
+		if c.returned && offGrid(c.ret) {
+			w.glitch = true
+		}
 	}
 	type sdr struct {
 		ret                time.Time
@@ -707,14 +800,23 @@ func (w *world) finish(T int) string {
 
 func runCaseLines(lines []string, unit time.Duration) caseResult {
 	var res caseResult
+	var robust []finding
 	for try := 1; try <= 4; try++ {
 		res = runOnce(lines, unit)
 		res.tries = try
 		if res.valid {
+			res.finds = append(robust, res.finds...)
+
 			return res
+		}
+		for _, f := range res.finds {
+			if f.robust {
+				robust = append(robust, f)
+			}
 		}
 		unit *= 2
 	}
+	res.robust = robust
 
 	return res
 }
@@ -867,7 +969,7 @@ func corpus() [][]string {
 		// Shutdown with pending elements and idle workers must return; pending elements are still delivered
 		{"new 2 0", "0 exec 1 10 5 plain", "2 shutdown -", "end 10"},
 		{"new 3 0", "0 exec 1 10 5 plain", "2 shutdown c", "end 10"},
-		{"new 2 0", "0 exec 1 10 9 plain", "0 exec 2 11 7 plain", "2 exec 3 12 11 plain", "4 shutdown i", "end 14"},
+		{"new 2 0", "0 exec 1 10 9 plain", "2 exec 2 11 7 plain", "4 exec 3 12 11 plain", "6 shutdown i", "end 14"},
 		{"new 1 0", "0 exec 1 10 9 plain", "2 exec 2 11 5 plain", "4 shutdown p", "6 exec 3 12 9 plain", "8 shutdown -", "10 shutdown d", "end 14"},
 		{"new 1 0", "0 exec 1 10 9 plain", "2 shutdown cd", "4 cancel 1", "end 12"},
 		{"new 1 0", "0 exec 1 10 7 plain", "2 shutdown -", "4 exec 1 11 9 plain", "6 cancel 1", "end 12"},
@@ -925,7 +1027,7 @@ func runStress(r *hx.Run, sub uint64, variant string, workers, owners, rounds in
 	var fails []finding
 	failf := func(oracle, detail string, sig map[string]string) {
 		mu.Lock()
-		fails = append(fails, finding{oracle, detail, sig})
+		fails = append(fails, finding{oracle, detail, sig, true})
 		mu.Unlock()
 	}
 	var wg sync.WaitGroup
@@ -1080,7 +1182,7 @@ func runBurst(r *hx.Run, sub uint64, fl string, workers, k, reps int) {
 				t.runs++
 				loc = append(loc, fmt.Sprintf("run %d %d", t.x, us(now)))
 				if now.Before(t.due) && !ignored {
-					fails = append(fails, finding{"never-early", "burst: task ran before its time without IgnorePendingTimeouts", map[string]string{"oracle": "early", "mode": "burst"}})
+					fails = append(fails, finding{"never-early", "burst: task ran before its time without IgnorePendingTimeouts", map[string]string{"oracle": "early", "mode": "burst"}, true})
 				}
 				mu.Unlock()
 			}, t.due)
@@ -1095,19 +1197,17 @@ func runBurst(r *hx.Run, sub uint64, fl string, workers, k, reps int) {
 		case <-done:
 		case <-time.After(2 * time.Second):
 			mu.Lock()
-			fails = append(fails, finding{"shutdown-returns", fmt.Sprintf("burst: %d idle workers, ExecuteAt x%d, Shutdown(%s) did not return within 2s", workers, k, fl),
-				map[string]string{"oracle": "shutdown-hang", "mode": "burst"}})
+			fails = append(fails, finding{"shutdown-returns", fmt.Sprintf("burst: %d idle workers, ExecuteAt x%d, Shutdown(%s) did not return within 2s", workers, k, fl), map[string]string{"oracle": "shutdown-hang", "mode": "burst"}, true})
 			mu.Unlock()
 		}
 		time.Sleep(time.Duration(k+2) * 1500 * time.Microsecond)
 		mu.Lock()
 		for _, t := range ts {
 			if t.runs > 1 {
-				fails = append(fails, finding{"at-most-once", "burst: task ran twice", map[string]string{"oracle": "double-run", "mode": "burst"}})
+				fails = append(fails, finding{"at-most-once", "burst: task ran twice", map[string]string{"oracle": "double-run", "mode": "burst"}, true})
 			}
 			if t.runs == 0 && !strings.Contains(fl, "c") {
-				fails = append(fails, finding{"eventually-delivered", fmt.Sprintf("burst: a task pending at Shutdown(%s) never ran", fl),
-					map[string]string{"oracle": "missing-delivery", "mode": "burst"}})
+				fails = append(fails, finding{"eventually-delivered", fmt.Sprintf("burst: a task pending at Shutdown(%s) never ran", fl), map[string]string{"oracle": "missing-delivery", "mode": "burst"}, true})
 			}
 		}
 		evs = append(evs, loc...)
@@ -1155,7 +1255,7 @@ func runAddRace(r *hx.Run, sub uint64, workers, reps int) {
 		select {
 		case <-g.entered:
 		case <-time.After(5 * time.Second):
-			fails = append(fails, finding{"harness", "addrace: Queue.Add never reached the hook", map[string]string{"oracle": "harness-timeout", "mode": "addrace"}})
+			fails = append(fails, finding{"harness", "addrace: Queue.Add never reached the hook", map[string]string{"oracle": "harness-timeout", "mode": "addrace"}, true})
 		}
 		sdDone := make(chan struct{})
 		go func() { te.Shutdown(); close(sdDone) }()
@@ -1166,20 +1266,19 @@ func runAddRace(r *hx.Run, sub uint64, workers, reps int) {
 		close(g.release)
 		accepted := <-res
 		addArmed.Delete(due.UnixNano())
-		for i := 0; i < 100 && accepted && ran.Load() == 0; i++ {
+		for i := 0; i < 400 && accepted && ran.Load() == 0; i++ {
 			time.Sleep(5 * time.Millisecond)
 		}
 		select {
 		case <-sdDone:
 		case <-time.After(2 * time.Second):
-			fails = append(fails, finding{"shutdown-returns", "addrace: Executor.Shutdown() did not return", map[string]string{"oracle": "shutdown-hang", "mode": "addrace"}})
+			fails = append(fails, finding{"shutdown-returns", "addrace: Executor.Shutdown() did not return", map[string]string{"oracle": "shutdown-hang", "mode": "addrace"}, true})
 		}
 		evs = append(evs, "shutdown 0 0")
 		if accepted {
 			evs = append(evs, fmt.Sprintf("sched %d 1 %d", rep+1, due.Sub(base).Microseconds()))
 			if ran.Load() == 0 {
-				fails = append(fails, finding{"eventually-delivered", fmt.Sprintf("addrace: ExecuteAt returned a task while Shutdown() was starting (workers=%d); the task was never run although neither cancelled nor dropped by a flag", workers),
-					map[string]string{"oracle": "missing-delivery", "mode": "addrace"}})
+				fails = append(fails, finding{"eventually-delivered", fmt.Sprintf("addrace: ExecuteAt returned a task while Shutdown() was starting (workers=%d); the task was never run although neither cancelled nor dropped by a flag", workers), map[string]string{"oracle": "missing-delivery", "mode": "addrace"}, true})
 			} else {
 				evs = append(evs, fmt.Sprintf("run %d %d", rep+1, ranAt.Load()))
 			}
@@ -1326,15 +1425,41 @@ func main() {
 	}
 	wg.Wait()
 	dropped := 0
+	var droppedSamples []string
+	var kept []finding
 	for i, res := range results {
 		if !res.valid {
 			dropped++
+			if len(droppedSamples) < 5 {
+				droppedSamples = append(droppedSamples, strings.Join(res.lines, " | "))
+			}
+			for _, f := range res.robust {
+				f.detail += "; ops=" + strings.Join(res.lines, " | ")
+				kept = append(kept, f)
+			}
 
 			continue
 		}
 		emit(r, jobs[i].sub, res)
 	}
+	if len(kept) > 0 {
+		r.Case(0)
+		r.Line("nop", "done")
+		for i, f := range kept {
+			if i < 20 {
+				r.Fail(f.oracle, f.detail, f.sig)
+			}
+		}
+	}
 	r.Extra["timing_dropped_cases"] = dropped
+	r.Extra["timing_dropped_samples"] = droppedSamples
+	if dropped*25 > len(jobs) {
+		// rare glitches of the machine are tolerated; systematic lateness is not
+		r.Case(0)
+		r.Line("nop", "done")
+		r.Fail("harness", fmt.Sprintf("%d of %d cases stayed timing-invalid after 4 attempts: callbacks start late systematically, or the machine is overloaded", dropped, len(jobs)),
+			map[string]string{"oracle": "timing-invalid-mass"})
+	}
 	r.Extra["unit_ms"] = unit.Milliseconds()
 	// stress
 	ns := 6 * r.Scale
